@@ -10,7 +10,7 @@
     (per TREE) > threshold or in every tree; support = frequency; length = mean; rejections. *)
 From Coq Require Import String ZArith QArith Qabs Bool Arith List.
 From GT Require Import Base.Sexp Base.UTree Base.Codec Spec.Obs Spec.ConsensusSpec Model.Reroot
-     Model.Index Model.HashMap Model.EdgeIndex Model.Compare Model.Consensus Judge.Common.
+     Model.Index Model.HashMap Model.EdgeIndex Model.Compare Model.Consensus Model.ConsensusTree Judge.Common.
 Import ListNotations.
 Local Close Scope Q_scope.
 Local Open Scope string_scope.
@@ -164,6 +164,10 @@ Definition judge_main (ts : list utree) (cutoff : Q) (o : sexp) : verdict :=
                         | Some (Ok ma) =>
                           if negb (splits_eq approx_len_sup (usplits ma) (usplits g))
                           then Some ("association-list model builds other splits: " ++ show_utree ma)
+                          else if in_domain ts && cutoff_ok cutoff &&
+                                  negb (splits_eq approx_len_sup (usplits (consensus_utree ts (round53 cutoff))) (usplits g))
+                          then Some ("the utree-level construction (Model/ConsensusTree.v) has other splits: "
+                                     ++ show_utree (consensus_utree ts (round53 cutoff)))
                           else None
                         | _ => Some "association-list model fails where the hash-index model succeeds"
                         end in
